@@ -60,7 +60,7 @@ Fold(X, A0, Tg, e, fuel) ==
   LET op == e[1] IN
   CASE op \in {"y", "n"} -> e
     [] op = "c" -> e
-    [] op = "ch" -> e
+    [] op = "ch" -> e        \* the mode of a choice is never folded, not even for a choice nobody can open on this target
     [] op = "s" ->
          IF e[2] \notin DOMAIN X.s THEN (IF e[2] \in DOMAIN NumC THEN e ELSE CN)   \* undefined reference: n
          ELSE IF X.s[e[2]].type = "bool" /\ ConstN(X, A0, Tg, e[2], fuel) THEN Truth(X, A0, e)
